@@ -24,12 +24,17 @@ def gen_block(rng):
     n = rng.randint(1, 5)
     keys = rng.sample(KEYWORDS, n)
     lines, exp = [], []
-    for k in keys:
+    for ki, k in enumerate(keys):
         kk = k + rng.choice(["", "", " ", "\t"])                   # blanks before the colon are allowed
         sep = rng.choice([" ", "", "\t", "  "])
         v = rng.choice(VALS) + rng.choice(["", "", "  "])          # trailing blanks
+        # a key after the first may have an empty / blank value (the first line of a document is metadata only with a value);
+        # most often the last key, where the value is followed by the end of the block
+        empty = ki > 0 and rng.random() < (0.3 if ki == n - 1 else 0.08)
+        if empty:
+            v = rng.choice(["", "", " ", "  "])
         val_lines = [v]
-        for _ in range(rng.choice([0, 0, 0, 1, 2])):
+        for _ in range(0 if empty else rng.choice([0, 0, 0, 1, 2])):
             c = rng.choice(["continued here", "more & more", "日本 again"])
             val_lines.append(c)
             lines_c = rng.choice(["    ", "\t", ""]) + c
@@ -109,7 +114,7 @@ def run(rep, tier, seed):
             okk = True
             for kk, r in zip(vals, rs):
                 f = r.split(" ")
-                gv = bytes.fromhex(f[3]).decode("utf-8", "replace") if len(f) > 3 and f[3] not in ("NULL", "-") else None
+                gv = bytes.fromhex(f[3]).decode("utf-8", "replace") if len(f) > 3 and f[3] not in ("NULL", "-") else ("" if len(f) > 3 and f[3] == "-" else None)
                 if gv != vals[kk]:
                     bad.append(("update-readback" if kk == norm_key(k) else "update-changed-other-key",
                                 "after updating %r to %r, key %r reads %r instead of %r" % (k, v, kk, gv, vals[kk]), cur, src)); okk = False; break
@@ -132,7 +137,7 @@ def run(rep, tier, seed):
         vals = {}
         for k, r in zip(keys, rs):
             f = r.split(" ")
-            vals[k] = bytes.fromhex(f[3]).decode("utf-8", "replace") if len(f) > 3 and f[3] not in ("NULL", "-") else None
+            vals[k] = bytes.fromhex(f[3]).decode("utf-8", "replace") if len(f) > 3 and f[3] not in ("NULL", "-") else ("" if len(f) > 3 and f[3] == "-" else None)
         cur = src
         for _ in range(rng.randint(1, 3)):
             k = rng.choice(keys[j:j + 1] * 2 + keys); v = rng.choice(VALS)
@@ -147,7 +152,7 @@ def run(rep, tier, seed):
             okk = True
             for kk, r in zip(keys, rs):
                 f = r.split(" ")
-                gv = bytes.fromhex(f[3]).decode("utf-8", "replace") if len(f) > 3 and f[3] not in ("NULL", "-") else None
+                gv = bytes.fromhex(f[3]).decode("utf-8", "replace") if len(f) > 3 and f[3] not in ("NULL", "-") else ("" if len(f) > 3 and f[3] == "-" else None)
                 if gv != vals[kk]:
                     bad.append(("update-readback" if kk == k else "update-changed-other-key",
                                 "a key occurs twice in the block: after updating %r to %r, key %r reads %r instead of %r" % (k, v, kk, gv, vals[kk]), cur, src)); okk = False; break
